@@ -439,8 +439,15 @@ class _FuncAnalysis:
                 recv = None
             bind[params[0]] = recv
             offset = 1
-        for i, a in enumerate(node.args):
+        from .model import positional_layout
+        floating = []
+        for i, a in positional_layout(self.E.repo, self.f.module, self.f.local_names(), node):
             if isinstance(a, ast.Starred):
+                continue
+            if i is None:
+                # after a star-unpacking of unknown length the position is not known: the
+                # argument may be bound to any parameter not bound otherwise
+                floating.append(a)
                 continue
             if i + offset < len(params):
                 bind[params[i + offset]] = a
@@ -449,6 +456,11 @@ class _FuncAnalysis:
                 bind[k.arg] = k.value
         # effects: callee writes parameter p
         for p, sites in S2.writes.items():
+            if p not in bind and floating and p in params:
+                for a_ in floating:
+                    self.sink(a_, node, 'callee %s may write this argument (its position after a '
+                                        'star-unpacking of unknown length is not known; %s)'
+                              % (callee.qualname, sites[0][1]))
             a = bind.get(p)
             if a is not None:
                 # a parameter the callee only changes through the object's own methods keeps
